@@ -200,9 +200,46 @@ fn binop_driver(t: &Tier, m: &mut Matrix, sink: &mut Sink, ops: &[&'static str],
             sink.emit(m.run(&Case::new(op, x).y(YSpec::Bits(y)).forms(forms)));
         }
     }
+    // random and sparse operands at the lengths where the N = 4 instantiations of every word type use
+    // all their words (u8: 25..32, u16: 49..64, u32: 97..128, u64/usize: 193..256, u128: 385..512)
+    {
+        let bands: [(usize, usize); 5] = [(25, 32), (49, 64), (97, 128), (193, 256), (385, 512)];
+        let sparse = |len: usize, ks: &[usize]| -> Bits {
+            let mut v = zeros(len);
+            for k in ks {
+                if *k < len {
+                    v[*k] = 1;
+                }
+            }
+            v
+        };
+        for (bi, (lo, hi)) in bands.iter().copied().enumerate() {
+            let reps = if hi > 256 { t.q(10, 60) } else { t.q(40, 400) };
+            for i in 0..reps {
+                let op = ops[i % ops.len()];
+                let is_div = matches!(op, "div" | "rem" | "div_rem");
+                if is_div && hi > 256 && t.quick && i % 2 == 1 {
+                    continue;
+                }
+                let n = if i % 3 == 0 { hi } else { lo + rng.below(hi - lo + 1) };
+                let w = hi / 4; // the word size of the instantiation this band is about
+                let (x, y): (Bits, Bits) = match i % 4 {
+                    // random x random
+                    0 | 1 => (random_bits(&mut rng, n), { let m = if i % 2 == 0 { n } else { n / 2 + rng.below(n / 2 + 1) }; let mut y = random_bits(&mut rng, m); if is_div && y.iter().all(|b| *b == 0) { y[0] = 1; } y }),
+                    // sparse: powers of two and small multiples against 2^(k*w) + 1 (equal zero words in between)
+                    2 => (sparse(n, &[n - 1, 2 * w, w + 1][..1 + i % 3]), sparse((2 * w + 1).min(n), &[0, w, 2 * w][..1 + (i / 4) % 3])),
+                    // a saturated middle word in the operand
+                    _ => (random_bits(&mut rng, n), { let mut y = zeros((3 * w).min(n)); for k in w..(2 * w).min(y.len()) { y[k] = 1; } y[0] = 1; if y.len() > 2 * w { y[2 * w] = (i % 2) as u8; } y }),
+                };
+                let _ = bi;
+                let forms: &[&str] = if op == "div_rem" { &[""] } else { &FORMS6 };
+                sink.emit(m.run(&Case::new(op, x).y(YSpec::Bits(y)).forms(forms)));
+            }
+        }
+    }
     // dense small random cases (both operands short: every kind takes part)
     for _ in 0..t.q(200, 20000) {
-        let n = rng.below(t.q(20, 48));
+        let n = rng.below(t.q(34, 48));
         let x = random_bits(&mut rng, n);
         let op = *rng.pick(ops);
         let is_div = matches!(op, "div" | "rem" | "div_rem");
